@@ -208,7 +208,7 @@ fn suffix_conditioned_for(spec: &Spec, suffix: &[f64]) -> bool {
 
 fn gen_windowed(r: &mut Rng, k: K, n_max: usize, inner: Spec) -> Spec {
     let x = r.unit();
-    let mut n = if x < 0.7 { r.range(1, 8) } else if x < 0.95 { r.range(9, 16) } else { r.range(17, 64) };
+    let mut n = if x < 0.7 { r.range(1, 8) } else if x < 0.95 { r.range(9, 16) } else if x < 0.99 || k == K::Net { r.range(17, 64) } else { *r.pick(&[65usize, 100, 255, 256, 257, 300]) };
     n = n.min(n_max).max(1);
     let mut s = match k {
         K::Pfe => {
@@ -239,7 +239,7 @@ impl Prop for C03 {
         let mut sc = Scenario::new("C03", if exact { "exact" } else { "f64" });
         let pool: &[K] = if exact { WINDOWED } else { F64_OK };
         let k = pool[(i as usize / 6) % pool.len()];
-        let n_max = if exact { 24 } else { 64 };
+        let n_max = if exact { 24 } else { 300 };
         // chains are decided in exact mode only: in f64 an outer normaliser over a smoothed inner signal can
         // amplify rounding residue of two honest histories (sign of a ~0 change), which is C16's subject
         let chain = exact && r.chance(0.5);
